@@ -370,18 +370,27 @@ class _Tracer:
         return out
 
 
-def dyadic_refine(eng, ctx, extra):
-    "re-solve the violating query with every real input restricted to small dyadic rationals"
+def dyadic_refine(eng, ctx, extra, odd=False):
+    """re-solve the violating query with every real input restricted to small dyadic rationals
+    (odd=True: odd multiples of 1/8 or 1/64, which avoids the integer coincidences of periodic functions)"""
     reals = [c for c in ctx.inputs.values() if c is not None and c.sort() == z3.RealSort()]
     if not reals:
         return None
-    for m, bound in ((0, 1000), (1, 1000), (3, 10000), (6, 100000)):
+    for m, bound in ((None, 50),) if odd else ((0, 1000), (1, 1000), (3, 10000), (6, 100000)):
         cons = []
+        ks = []
         for i, c in enumerate(reals):
             k = z3.Int("dy!%d" % i)
-            cons.append(c * (2**m) == z3.ToReal(k))
-            cons.append(k <= bound * 2**m)
-            cons.append(k >= -bound * 2**m)
+            ks.append(k)
+            den = 97 if odd else 2**m
+            cons.append(c * den == z3.ToReal(k))
+            cons.append(k <= bound * den)
+            cons.append(k >= -bound * den)
+            if odd:
+                # generic values: multiples of 1/97 that are no integers, pairwise distinct
+                cons.append(k % 97 != 0)
+        if odd and len(ks) > 1:
+            cons.append(z3.Distinct(*ks))
         save = (eng.timeout_ms, eng.inc_timeout_ms)
         eng.timeout_ms, eng.inc_timeout_ms = 4000, 2000
         try:
@@ -403,8 +412,12 @@ def run_job(prop, prop_mod, harness, cfg, tier, seed, known_pass=None):
             opts["crosscheck"] = True
     opts.pop("no_crosscheck", None)
     sqrt_axiom = opts.pop("sqrt_axiom", False)
+    sqrt_pos = opts.pop("sqrt_pos_axiom", False)
+    keyed = opts.pop("keyed_sqrt", False)
     eng = E.set_engine(E.Engine(seed=seed, **opts))
     eng.sqrt_axiom = sqrt_axiom
+    eng.sqrt_pos_axiom = sqrt_pos
+    eng.keyed_sqrt = keyed
     open_ids = [k["id"] for k in open_known(prop, harness.name)]
     rec = {
         "property": prop,
@@ -476,8 +489,13 @@ def run_job(prop, prop_mod, harness, cfg, tier, seed, known_pass=None):
                 if md is not None:
                     models.append(("dyadic", md))
                 models.append(("raw", v["model"]))
+                models.append(("generic", None))
                 reproduced = False
                 for how, mdl in models:
+                    if mdl is None:
+                        mdl = dyadic_refine(eng, ctx, [neg], odd=True)
+                        if mdl is None:
+                            continue
                     vals = model_inputs(ctx, mdl)
                     res = run_concrete(prop_mod, harness, cfg, vals, seed)
                     tried.append((how, vals, res["status"]))
@@ -493,6 +511,31 @@ def run_job(prop, prop_mod, harness, cfg, tier, seed, known_pass=None):
                         )
                         reproduced = True
                         break
+                if not reproduced and tried:
+                    # UF models can be spurious for the real functions (e.g. sin at multiples of the period):
+                    # look for a concrete reproducer near the solver's model. Any input that fails the
+                    # replay on the real code is a genuine counterexample, however it was found.
+                    import random
+
+                    rng = random.Random(1000 + seed)
+                    base = tried[-1][1] if tried[-1][1] else tried[0][1]
+                    for attempt in range(40):
+                        sigma = (1e-3, 0.05, 0.5, 3.0)[attempt % 4]
+                        vals = OrderedDict()
+                        for kname, x in base.items():
+                            if isinstance(x, float):
+                                vals[kname] = x + sigma * (1 + abs(x)) * rng.uniform(-1, 1)
+                            else:
+                                vals[kname] = x
+                        try:
+                            res = run_concrete(prop_mod, harness, cfg, vals, seed)
+                        except E.HarnessError:
+                            continue
+                        if res["status"] == "fail":
+                            path = write_replay(prop, harness, cfg, vals, res["failed"], "perturbation of the solver model for claim '%s' (the model itself is spurious for the real transcendental functions)" % v["label"])
+                            rec["violations"].append({"label": v["label"], "inputs": vals, "failed_concrete": res["failed"], "replay": path})
+                            reproduced = True
+                            break
                 if not reproduced:
                     rec["unreproduced"].append(
                         {"label": v["label"], "tried": [(h, vl, s) for h, vl, s in tried]}
